@@ -118,7 +118,7 @@ Proof.
     split; [exact Nad|].
     assert (Hbits : forall i, N.testbit (between a k) i = true ->
                     N.testbit (occw q) i = false /\ i < 64).
-    { intros i Hi. pose proof (land0_bits _ _ Hz i) as B. rewrite Hi in B.
+    { intros i Hi. pose proof (land0_bits _ _ Hz i) as B. rewrite Hi in B. cbn [andb] in B.
       split; [exact B|exact (between_lt64 a k i Ha gs_k_lt Hi)]. }
     split.
     + intros i Hi HWi. destruct (Hbits i Hi) as [Hq0 Hi64]. rewrite (gs_Wq i Hi64) in Hq0.
@@ -303,7 +303,7 @@ Proof.
           split; [left; exact (proj2 HC0)|].
           rewrite <- Ead. exact (gs_chk_clear c0 a HC0 HWa). }
         { exists a. split; [exact (proj1 HP)|]. split; [exact Nad|].
-          split; [right; exact (proj2 HP)|reflexivity]. }
+          split; [right; exact (proj2 HP)|exact Eb]. }
     + apply orb_false_iff in Hb. destruct Hb as [Hb1 Hb2]. apply N.eqb_neq in Hb2.
       exists c0. split; [exact (proj1 HC0)|].
       split; [intro E1; apply Hb2; symmetry; exact E1|].
@@ -333,16 +333,16 @@ Proof.
       destruct (N.testbit (between c2 k) d) eqn:Ec; [exfalso|reflexivity].
       apply (gs_share c2 c1 HC1 (proj1 HC2) (or_introl (proj2 HC2))); auto.
     + exists c1. split; [exact (proj1 HC1)|]. split; [exact N1|].
-      split; [left; exact (proj2 HC1)|reflexivity].
+      split; [left; exact (proj2 HC1)|exact Eb].
 Qed.
 
 Theorem safe_core : safe p m = safe_nonking_rhs p m.
 Proof.
   unfold safe, safe_nonking_rhs, kingsq. rewrite Hks. apply bool_neg_iff.
   destruct (checkers_of p) as [|c1 [|c2 rest]] eqn:E.
-  - apply gs_case0. reflexivity.
-  - apply gs_case1. reflexivity.
-  - split; [reflexivity|]. intros _. exact (gs_case2 c1 c2 rest eq_refl).
+  - exact (gs_case0 E).
+  - exact (gs_case1 c1 E).
+  - split; [reflexivity|]. intros _. exact (gs_case2 c1 c2 rest E).
 Qed.
 End Safe.
 
@@ -381,8 +381,8 @@ Corollary safe_nonking_double_check p m :
   (length (checkers_of p) >= 2)%nat -> safe p m = false.
 Proof.
   intros Hv Hin Hnk Hnep E. rewrite (safe_nonking p m Hv Hin Hnk Hnep).
-  unfold safe_nonking_rhs. destruct (checkers_of p) as [|c1 [|c2 rest]]; cbn [length] in E; try lia.
-  reflexivity.
+  unfold safe_nonking_rhs. destruct (checkers_of p) as [|c1 [|c2 rest]]; cbn [length] in E;
+    [lia|lia|reflexivity].
 Qed.
 
 (** the hypotheses are satisfiable, with both outcomes: the pinned knight of [pinpos] may not
